@@ -151,6 +151,7 @@ e("f_when", S_F, lambda p, t: p.when(t.f > 0).then(t.f).otherwise(t.g))
 e("f_div_lit", S_F, lambda p, t: t.f / 2)
 e("f_round_neg", S_F, lambda p, t: t.f.round(-1))
 S_S = [("t", {"s": STR, "r": STR, "a": INT})]
+e("floor_ceil_int", S_I, lambda p, t: t.a.floor() + t.b.ceil())
 e("clip_int_float_bounds", S_I, lambda p, t: t.a.clip(0.5, 10.5))
 e("clip_int_mixed_bounds", S_I, lambda p, t: t.a.clip(-1, 2.5) + t.b)
 e("coalesce_int_float_lit", S_I, lambda p, t: p.coalesce(t.a, 0.5))
